@@ -206,7 +206,12 @@ pub fn gen_join_opts(t: &mut Tape, force_loop: bool) -> Scenario {
         let r2 = g.unlimited(r);
         g.attrs[r2].take();
         let a = g.attrs[l2].take().unwrap();
-        let mut body = vec![Step::Bin(0, SIDE_BASE + r2, op.clone())];
+        // the side input on either side of the join
+        let mut body = if g.t.draw(2) == 1 {
+            vec![Step::Bin(SIDE_BASE + r2, 0, op.clone())]
+        } else {
+            vec![Step::Bin(0, SIDE_BASE + r2, op.clone())]
+        };
         let mut body_out = 1;
         if iterate {
             let keeps_left_repl = matches!(op, BinOp::Join(_, JoinForm::BcastHash) | BinOp::Join(_, JoinForm::BcastSortMerge));
